@@ -375,7 +375,21 @@ class TaskState:
             if k is not None:
                 k.log("end", dig(rec.get("norm")))
             self.run.after_op(self, oi, op, rec)
+            if self.run.cfg.get("drop"):
+                self.drop_unreferenced(oi)
         self.finished = True
+
+    def drop_unreferenced(self, oi):
+        """A consumer that does not keep results: everything no later operation refers to is released,
+        so that the interpreter may reuse the memory (object identities of dead documents come back)."""
+        ops = self.spec["ops"]
+        needed = {op["of"] for op in ops[oi + 1:] if op["op"] == "compile"}
+        for j, r in enumerate(self.records):
+            if j not in needed and r.get("raw") is not None or (j not in needed and r.get("sources")):
+                r["dg"] = dig([r.get("kind"), r.get("norm")])
+                for k in ("raw", "snap", "norm", "sources"):
+                    if k in r:
+                        r[k] = None
 
     def do_op(self, oi, op):
         kind = op["op"]
@@ -568,7 +582,7 @@ class Run:
 
     def outcome(self, env, states):
         k = self.kernel
-        opd = [[dig([r.get("kind"), r.get("norm")]) for r in ts.records] for ts in states]
+        opd = [[r.get("dg") or dig([r.get("kind"), r.get("norm")]) for r in ts.records] for ts in states]
         h = hashlib.sha256(canon(opd).encode())
         if k is not None:
             h.update(k.digest().encode())
